@@ -261,11 +261,18 @@ def library(draw, lang=None, max_decls=8, with_python=None, with_lua=None, featu
         for k in ("class", "enum", "struct", "namespace", "overload", "default", "template", "generic"):
             if k in feats:
                 kinds.append(k)
+        if "class" in feats and not any(d["kind"] == "classpair" for d in lib["decls"]):
+            kinds.append("classpair")
         k = draw(st.sampled_from(kinds))
         if k == "func":
             lib["decls"].append(draw(function(lang, names, prefix=None)))
         elif k == "class":
             lib["decls"].append(draw(class_decl(lang, names)))
+        elif k == "classpair":
+            # struct.rst "Forward Declaration": two classes whose methods take each other
+            a, b = names.fresh("Node"), names.fresh("Edge")
+            how = draw(st.sampled_from(["&", "*"]))
+            lib["decls"].append(dict(kind="classpair", a=a, b=b, how=how))
         elif k == "enum":
             # (scoped enumerations are not used with the Python wrapper in docs or corpus)
             lib["decls"].append(draw(enum_decl(names, scoped_ok=(lang == "c++" and not wp))))
@@ -368,6 +375,13 @@ def _func_yaml(f, lib):
     return d
 
 
+def _pair_arg(cls, how, name, attrs):
+    # forward.yaml: 'Class3 *arg +intent(in)'; classes.yaml: 'const Class1 &'
+    if how == "*":
+        return "%s *%s%s" % (cls, name, " +intent(in)" if attrs else "")
+    return "const %s &%s" % (cls, name)
+
+
 def _decl_yaml(node, lib):
     k = node["kind"]
     if k in ("func", "ctor"):
@@ -399,6 +413,14 @@ def _decl_yaml(node, lib):
              "declarations": [_decl_yaml(x, lib) for x in node["decls"]]}
     elif k == "block":
         d = {"block": True, "declarations": [_decl_yaml(x, lib) for x in node["decls"]]}
+    elif k == "classpair":
+        a, b, how = node["a"], node["b"], node["how"]
+        nolua = {"options": {"wrap_lua": False}} if lib["options"].get("wrap_lua") else {}
+        return [{"decl": "class " + a},
+                {"decl": "class " + b, "declarations": [{"decl": "%s()" % b},
+                                                         dict({"decl": "void accept%s(%s)" % (a, _pair_arg(a, how, "arg1", True))}, **nolua)]},
+                {"decl": "class " + a, "declarations": [{"decl": "%s()" % a},
+                                                         dict({"decl": "void accept%s(%s)" % (b, _pair_arg(b, how, "arg2", True))}, **nolua)]}]
     elif k == "raw":
         d = dict(node["yaml"])
         return d
@@ -423,7 +445,10 @@ def to_yaml_dict(lib):
     for k in ("splicer", "splicer_code"):
         if lib.get(k):
             d[k] = lib[k]
-    d["declarations"] = [_decl_yaml(x, lib) for x in lib["decls"]]
+    d["declarations"] = []
+    for x in lib["decls"]:
+        y = _decl_yaml(x, lib)
+        d["declarations"] += y if isinstance(y, list) else [y]
     return d
 
 
@@ -521,12 +546,19 @@ def header(lib):
                 for m in n["methods"]:
                     out.append(indent + "    " + func_proto(m))
                 out.append(indent + "};")
+            elif k == "classpair":
+                a, b, how = n["a"], n["b"], n["how"]
+                out.append(indent + "class %s;" % a)
+                out.append(indent + "class %s { public: %s(); void accept%s(%s); };" % (b, b, a, _pair_arg(a, how, "arg1", False)))
+                out.append(indent + "class %s { public: %s(); void accept%s(%s); };" % (a, a, b, _pair_arg(b, how, "arg2", False)))
             elif k == "namespace":
                 out.append(indent + "namespace %s {" % n["name"])
                 emit(n["decls"], indent + "  ")
                 out.append(indent + "}")
             elif k == "block":
                 emit(n["decls"], indent)
+    if lib.get("raw_header"):
+        out.append(lib["raw_header"])
     if lib.get("namespace"):
         out.append("namespace %s {" % lib["namespace"])
     emit(lib["decls"], "")
